@@ -123,6 +123,15 @@ def variants(inv, rnd, tier):
                     [(1 << 64, 1, None, None)]):
             for ca in (None, 16, 32):
                 yield {cl.SRV_ADDR: -1 if ca is None else ca}, a_define_bymem(0xF301, ent), [], 'define by memory'
+    if inv.callid == 15 and inv.args[0] == 1:
+        # control type x presence x rate x how the caller typed the Baudrate: the full product (conversions between the
+        # fixed / specific / identifier forms depend on all of them at once)
+        rates = [0, 1, 2, 3, 4, 5, 6, 0x0F, 0x10, 0x11, 0x12, 0x13, 0x14, 0xFF, 0x100, 9600, 9601, 19200, 38400, 57600, 115200, 125000,
+                 250000, 500000, 1000000, 0xFFFF, 0x10000, 0xFFFFFF, 0x1000000, 0x1000000 + 250000, 1 << 40]
+        for ct in (0, 1, 2, 3, 0x7F):
+            for ty in (0, 1, 2, 3, 4):
+                for rate in rates:
+                    yield {}, [ct, 1, rate, ty], [], 'baudrate grid'
     if inv.callid == 26:
         from harness.callreg_ext import a_io
         for did in (0x0132, 0x0456, 0x0155, 0x0999, 0x10000, -1):
